@@ -261,6 +261,7 @@ class C06(Property):
                                  (1, "parallel"), (2, "divterm"),
                                  (2, "sharedhub"), (1, "linearize"),
                                  (2, "fraclin"), (2, "polydiv"),
+                                 (2, "subst"),
                                  (1, "copyonly")])
     if shape == "zeronum":
       # free response: empty numerator, feedback only (needs a delay term)
@@ -377,6 +378,18 @@ class C06(Property):
       if tree["c"][0] not in ("s", "c"):
         ctr[0] += 1
         tree["c"] = ["s", ctr[0]]
+    elif shape == "subst":
+      # substitution f(g) with g = c[n] * z, a time-varying gain on z: every
+      # term v_k z^-k of f becomes v_k c[n]^-k z^-k - the one object g is
+      # needed once per term of f
+      a = single()
+      if a["route"] == "quot":
+        a["route"] = "expr"
+      if all(k == 0 for k, _ in a["num"] + a["den"]):
+        # g ** 0 is 1: with z**0 terms only the gain would not be used
+        a["num"].append([1 + W.choose("spow", 2), coeff()])
+      ctr[0] += 1
+      tree = {"op": "subst", "a": a, "c": ["s", ctr[0]]}
     elif shape == "sub":
       tree = {"op": "sub", "a": single(), "b": single()}
     elif shape == "neg":
@@ -747,6 +760,8 @@ class C06(Property):
       if op == "copyonly":
         keep_alive.append(rec(t["a"]))    # the original is never called
         return keep_alive[-1].copy()
+      if op == "subst":
+        return rec(t["a"])(cval(t["c"]) * z)
       if op == "polydiv":
         f = rec(t["a"])
         Poly = type(f.numpoly)
@@ -853,6 +868,11 @@ class C06(Property):
       sf, sc = {"f+c": (1, 1), "c+f": (1, 1), "f-c": (1, -1),
                 "c-f": (-1, 1)}[t["how"]]
       return padd(pscale(sf, n1), pscale(sc * c, d1)), d1
+    if op == "subst":
+      n1, d1 = self.spec_polys(t["a"], n)
+      c = cv(t["c"])
+      return (dict((k, v / c ** k) for k, v in n1.items()),
+              dict((k, v / c ** k) for k, v in d1.items()))
     if op == "polydiv":
       n1, d1 = self.spec_polys(t["a"], n)
       c = cv(t["c"])
